@@ -396,6 +396,17 @@ func (t *bruteForceMatchTree) prepare(doc uint32) {
 	t.firstDone = true
 }
 
+// fresh returns a docMatchTree that shares t's predicate but has its own
+// iteration state (docID, firstDone), so that it can be evaluated
+// independently of t.
+func (t *docMatchTree) fresh() *docMatchTree {
+	return &docMatchTree{
+		reason:    t.reason,
+		numDocs:   t.numDocs,
+		predicate: t.predicate,
+	}
+}
+
 func (t *docMatchTree) prepare(doc uint32) {
 	t.docID = doc
 	t.firstDone = true
@@ -1084,7 +1095,9 @@ func (d *indexData) newMatchTree(q query.Q, opt matchTreeOpt) (matchTree, error)
 		checksum := queryMetaChecksum(s.Field, s.Value)
 		cacheKeyField := "Meta"
 		if cached, ok := d.docMatchTreeCache.Get(cacheKeyField, checksum); ok {
-			return cached, nil
+			// The cached tree is shared by every search of this shard. Only its
+			// immutable parts may be reused: each search needs its own cursor.
+			return cached.fresh(), nil
 		}
 
 		reposWant := make([]bool, len(d.repoMetaData))
@@ -1108,7 +1121,7 @@ func (d *indexData) newMatchTree(q query.Q, opt matchTreeOpt) (matchTree, error)
 			},
 		}
 		d.docMatchTreeCache.Add(cacheKeyField, checksum, mt)
-		return mt, nil
+		return mt.fresh(), nil
 
 	case *query.Substring:
 		return d.newSubstringMatchTree(s)
